@@ -296,12 +296,44 @@ func c04OneShot(p *Program, r *Report) {
 				return false
 			}
 			for _, a := range c.Args[1:] {
-				if x, _ := fieldLoad(strip(a)); x == f.Fwd {
-					return true
+				for _, v := range g.values(a) {
+					if x, _ := fieldLoad(v); x == f.Fwd {
+						return true
+					}
 				}
 			}
 			return false
 		})},
+	}
+	// a flush counted at a call whose callee is itself spliced in is not counted again inside that callee (the callee's
+	// parameter resolves to the same value: instantiation wrappers, forwarding helpers)
+	for ei := range effs {
+		if effs[ei].name != "forwarder flush" {
+			continue
+		}
+		inner := map[*ssa.Function]bool{}
+		for n := range effs[ei].n {
+			if c, ok := g.Nodes[n].(*ssa.Call); ok {
+				for y := g.Inlined[c]; y != nil; {
+					inner[y] = true
+					var next *ssa.Function
+					for c2, y2 := range g.Inlined {
+						if c2.Parent() == y && effs[ei].n[g.Idx[c2]] {
+							next = y2
+						}
+					}
+					if next == nil || inner[next] {
+						break
+					}
+					y = next
+				}
+			}
+		}
+		for n := range effs[ei].n {
+			if inner[g.Nodes[n].Parent()] {
+				delete(effs[ei].n, n)
+			}
+		}
 	}
 	for _, h := range g.Fns[1:] {
 		if !g.owns(p, h) {
